@@ -655,4 +655,192 @@ theorem revealAfter_stepT (H : Hyp a T) (R : Ptr → Rat) {M A : List Word} {La 
         apply take_ne_nil (by omega)
         simp only [List.length_drop]; rw [hRl] at hk2; omega
 
+
+/-- the part of the one-sided invariant that the final `reveal_full` call and the assembly need -/
+structure PBw (a : Arpa) (T : Table) (R : Ptr → Rat) (F : List Word) (pF : Rat) (bw : List Word) (k Lk : Nat)
+    (left : LeftSt) (acc : Rat) : Prop where
+  ptrs : left.pointers = (List.range Lk).map (fun i => pre F i ++ bw.take k)
+  xl : ∀ i, i < Lk → T.xl (pre F i ++ bw.take k) = true
+  Lk_le : Lk ≤ F.length
+  bound : Lk + k ≤ a.order - 1
+  score : pF + acc = psum R F (bw.take k) Lk + specSeq a (gm1 F Lk ++ bw.take k) (F.drop Lk)
+  open_w : left.full = false → Lk = F.length
+  closed : left.full = true → ClosedP T F (bw.take k) Lk
+
+theorem ClosedP.append_words (H : Hyp a T) {P : List Word} {Lk : Nat} :
+    ∀ (l F : List Word), ClosedP T F P Lk → ClosedP T (F ++ l) P Lk := by
+  intro l
+  induction l with
+  | nil => intro F h; simpa using h
+  | cons w l ih =>
+    intro F h
+    have := ih (F ++ [w]) (h.append_word H w)
+    simpa using this
+
+/-- the final `RevealAfter` call, computed: nothing is extended, the back-offs still in the residual right state are charged -/
+theorem revealAfter_final (R : Ptr → Rat) (l : LeftSt) (r : State) (ptrs : List Ptr) (La : Nat) (hp : ptrs.length = La)
+    (hal : (r.words.take r.length).length = r.length) :
+    (revealAfter T R l r { pointers := ptrs, full := true } La).1 = (r.backoff.take r.length).sum ∧
+    (revealAfter T R l r { pointers := ptrs, full := true } La).2.1.pointers = l.pointers ∧
+    (revealAfter T R l r { pointers := ptrs, full := true } La).2.1.full = true := by
+  have hps : ptrs.drop La = [] := List.drop_eq_nil_of_le (by omega)
+  have hv : ∀ w, extendLoop T R La (r.words.take r.length) (r.backoff.take r.length) [] w =
+      { adjust := 0 + unRest T R [] (0 + La + 1), nextUse := r.length, backIn := (r.backoff.take r.length).take r.length } := by
+    intro w
+    unfold extendLoop
+    cases w <;> simp [extendLoopWrite, extendLoopUse, hal]
+  unfold revealAfter
+  dsimp only
+  rw [hps, hv]
+  simp only [unRest, List.map_nil, List.sum_nil, List.take_take, Nat.min_self]
+  cases hl : l.full <;> simp <;> grind
+
+/-- **the final `RevealAfter` call** (`after.full`) and the passage to the fragment `M ++ A` -/
+theorem finalA (H : Hyp a T) (R : Ptr → Rat) {M A : List Word} {La : Nat} {cA : Chart} {pA pM : Rat}
+    (GA : FragC a T R A La cA pA) {bw : List Word} {kb Lk : Nat} {l : LeftSt} {r : State} {acc : Rat}
+    (hkb : kb ≤ bw.length) (hBdead : ∀ k, kb < k → k ≤ bw.length → ¬ live a (bw.take k))
+    (I : PT a T R M A pM bw kb La Lk l r acc) :
+    PBw a T R (M ++ A) (pM + pA) bw kb Lk
+      (if cA.left.full then (revealAfter T R l r { pointers := cA.left.pointers, full := true } La).2.1 else l)
+      (if cA.left.full then acc + (revealAfter T R l r { pointers := cA.left.pointers, full := true } La).1 else acc) := by
+  have hord : T.order = a.order := H.tf.order_eq
+  have hN2 := H.wf.order_ge
+  have hLa := GA.L_le
+  have hkal : (A.take La).length = La := by rw [List.length_take]; omega
+  have hFl : (M ++ A.take La).length = M.length + La := by rw [List.length_append, hkal]
+  have hFrev : (M ++ A.take La).reverse = gm1 A La ++ M.reverse := by rw [List.reverse_append]; rfl
+  have hsplitF : M ++ A = (M ++ A.take La) ++ A.drop La := by rw [List.append_assoc, List.take_append_drop]
+  have hPl : (bw.take kb).length = kb := by rw [List.length_take]; omega
+  have hpA : pA = psum R A [] La + specSeq a (gm1 A La) (A.drop La) := by rw [GA.prob_eq, psum_nil]; rfl
+  have hpreF : ∀ i, i < (M ++ A.take La).length → pre (M ++ A) i = pre (M ++ A.take La) i := by
+    intro i hi; rw [hsplitF, pre_append _ _ hi]
+  have hptrsF : (List.range Lk).map (fun i => pre (M ++ A.take La) i ++ bw.take kb) = (List.range Lk).map (fun i => pre (M ++ A) i ++ bw.take kb) := by
+    apply List.map_congr_left
+    intro i hi
+    have : i < Lk := by simpa using hi
+    rw [hpreF i (by have := I.Lk_le; omega)]
+  have hxlF : ∀ i, i < Lk → T.xl (pre (M ++ A) i ++ bw.take kb) = true := by
+    intro i hi; rw [hpreF i (by have := I.Lk_le; omega)]; exact I.xl i hi
+  have hLkF : Lk ≤ (M ++ A).length := by have := I.Lk_le; rw [hsplitF]; simp; omega
+  -- the score of `M ++ A` from the score of the incorporated part plus the tail of `A`
+  have hscoreF : ∀ tail : Rat, tail = specSeq a ((M ++ A.take La).reverse ++ bw.take kb) (A.drop La) →
+      psum R (M ++ A.take La) (bw.take kb) Lk + specSeq a (gm1 (M ++ A.take La) Lk ++ bw.take kb) ((M ++ A.take La).drop Lk) + tail =
+      psum R (M ++ A) (bw.take kb) Lk + specSeq a (gm1 (M ++ A) Lk ++ bw.take kb) ((M ++ A).drop Lk) := by
+    intro tail ht
+    rw [hsplitF, psum_append R _ _ _ Lk I.Lk_le, gm1_append _ _ Lk I.Lk_le, List.drop_append_of_le_length I.Lk_le, specSeq_append]
+    have : ((M ++ A.take La).drop Lk).reverse ++ (gm1 (M ++ A.take La) Lk ++ bw.take kb) = (M ++ A.take La).reverse ++ bw.take kb := by
+      rw [← List.append_assoc]; congr 1
+      unfold gm1; rw [← List.reverse_append, List.take_append_drop]
+    rw [this, ht]; grind
+  by_cases hfA : cA.left.full = true
+  · simp only [hfA, if_true]
+    have hal : (r.words.take r.length).length = r.length := by
+      rw [I.words, List.length_take]
+      have := I.nu_le
+      simp only [List.length_append, List.length_reverse]; omega
+    have hlenA : cA.left.pointers.length = La := by rw [GA.ptrs]; simp
+    obtain ⟨f1, f2, f3⟩ := revealAfter_final (T := T) R l r cA.left.pointers La hlenA hal
+    let hR := M.reverse ++ bw
+    have hRl : hR.length = M.length + bw.length := by simp [hR]
+    have hnuR : r.length ≤ hR.length := by have := I.nu_le; omega
+    -- dead beyond what the residual right state holds
+    have hD : ∀ kk, r.length < kk → kk ≤ hR.length → ¬ live a (gm1 A La ++ hR.take kk) := by
+      intro kk h1 h2
+      by_cases hl : l.full = true
+      · exact (I.closed hl).2 kk h1 h2
+      · obtain ⟨_, o2⟩ := I.open_ (by simpa using hl)
+        have e : kk = M.reverse.length + (kk - M.length) := by simp; omega
+        show ¬ live a (gm1 A La ++ (M.reverse ++ bw).take kk)
+        rw [e, take_append_len, ← List.append_assoc]
+        have hk' : kb < kk - M.length := by omega
+        have hne : bw.take (kk - M.length) ≠ [] := take_ne_nil (by omega) (by omega)
+        exact H.dead_cons _ _ hne (hBdead _ hk' (by omega))
+    have hadj : (r.backoff.take r.length).sum = rsum (fun j => a.boW (gm1 A La ++ hR.take (j+1))) 0 r.length := by
+      rw [I.back, sum_range_map]
+    -- dropping the before-words that were never offered
+    have hcutR : ∀ ws, specSeq a (gm1 A La ++ hR) ws = specSeq a ((M ++ A.take La).reverse ++ bw.take kb) ws := by
+      intro ws
+      have e : gm1 A La ++ hR = ((M ++ A.take La).reverse ++ bw.take kb) ++ bw.drop kb := by
+        rw [hFrev]; simp only [hR, List.append_assoc, List.take_append_drop]
+      rw [e]
+      apply specSeq_dead H
+      intro k hk1 hk2
+      have : (M ++ A.take La).reverse ++ bw.take kb ++ (bw.drop kb).take k = (M ++ A.take La).reverse ++ bw.take (kb + k) := by
+        rw [List.append_assoc, ← List.take_add]
+      rw [this]
+      simp only [List.length_drop] at hk2
+      have hne : bw.take (kb + k) ≠ [] := take_ne_nil (by omega) (by omega)
+      exact H.dead_cons _ _ hne (hBdead _ (by omega) (by omega))
+    have htail : specSeq a (gm1 A La) (A.drop La) + (r.backoff.take r.length).sum =
+        specSeq a ((M ++ A.take La).reverse ++ bw.take kb) (A.drop La) := by
+      rw [← hcutR, hadj]
+      rcases GA.closed hfA with ⟨h1, h2⟩ | ⟨h1, _, j, hj1, hj2, h3⟩ | ⟨h1, h2⟩
+      · exact (tail_a H A hR La r.length h1 (by have := I.hN; omega) hnuR h2 hD).symm
+      · rw [h1, List.drop_eq_nil_of_le (Nat.le_refl _)]
+        simp only [specSeq]
+        have hz : rsum (fun j => a.boW (gm1 A A.length ++ hR.take (j+1))) 0 r.length = 0 := by
+          apply rsum_zero
+          intro i _ hi
+          apply boW_zero_of_dead
+          have hg : gm1 A A.length = A.reverse := by unfold gm1; rw [List.take_of_length_le (Nat.le_refl _)]
+          rw [hg]
+          exact closed_dead H (GA.closed hfA) hLa _ (take_ne_nil (by omega) (by omega))
+        rw [hz]; grind
+      · rw [h1, List.drop_eq_nil_of_le (Nat.le_refl _)]
+        simp only [specSeq]
+        have hz : rsum (fun j => a.boW (gm1 A A.length ++ hR.take (j+1))) 0 r.length = 0 := by
+          apply rsum_zero
+          intro i _ hi
+          apply boW_zero_of_dead
+          have hg : gm1 A A.length = A.reverse := by unfold gm1; rw [List.take_of_length_le (Nat.le_refl _)]
+          rw [hg]
+          exact closed_dead H (GA.closed hfA) hLa _ (take_ne_nil (by omega) (by omega))
+        rw [hz]; grind
+    refine ⟨by rw [f2, I.ptrs]; exact hptrsF, hxlF, hLkF, I.bound, ?_, (fun hc => by rw [f3] at hc; cases hc), fun _ => ?_⟩
+    · rw [f1, ← hscoreF _ htail, hpA]
+      have := I.score
+      grind
+    · by_cases hl : l.full = true
+      · have := (I.closed hl).1
+        rw [hsplitF]
+        exact ClosedP.append_words H _ _ this
+      · obtain ⟨o1, o2⟩ := I.open_ (by simpa using hl)
+        rcases GA.closed hfA with ⟨h1, h2⟩ | ⟨h1, _, j, hj1, hj2, h3⟩ | ⟨h1, h2⟩
+        · left
+          refine ⟨by rw [o1, hFl]; simp; omega, ?_⟩
+          intro y
+          rw [o1, hFl, pre_concat M A La h1]
+          cases hws : M.reverse ++ bw.take kb ++ [y] with
+          | nil => simp at hws
+          | cons z rest =>
+            have : pre A La ++ M.reverse ++ bw.take kb ++ [y] = (pre A La ++ [z]) ++ rest := by
+              have e : pre A La ++ M.reverse ++ bw.take kb ++ [y] = pre A La ++ (M.reverse ++ bw.take kb ++ [y]) := by
+                simp only [List.append_assoc]
+              rw [e, hws]; simp
+            rw [this]
+            exact lookup_none_extend H.ok _ _ (by simp) (h2 z)
+        · right; left
+          have hAt : A.take La = A := by rw [h1]; exact List.take_of_length_le (Nat.le_refl _)
+          refine ⟨by rw [o1, hAt], j, hj1, by simp; omega, ?_⟩
+          rw [List.reverse_append, List.append_assoc, List.take_append_of_le_length (by simpa using hj2)]; exact h3
+        · right; right
+          have hAt : A.take La = A := by rw [h1]; exact List.take_of_length_le (Nat.le_refl _)
+          refine ⟨by rw [o1, hAt], ?_⟩
+          have := I.bound
+          rw [o1, hFl, h2] at this
+          rw [o1, hFl, h2, hPl, hord]
+          rw [hord] at this
+          omega
+  · have hfA' : cA.left.full = false := by simpa using hfA
+    simp only [hfA', Bool.false_eq_true, if_false]
+    obtain ⟨h1, _⟩ := GA.open_ hfA'
+    have hAt : A.take La = A := by rw [h1]; exact List.take_of_length_le (Nat.le_refl _)
+    have hAd : A.drop La = [] := by rw [h1]; exact List.drop_eq_nil_of_le (Nat.le_refl _)
+    have hp : pA = psum R A [] La := by rw [hpA, hAd]; simp only [specSeq]; grind
+    refine ⟨by rw [I.ptrs, hAt], fun i hi => by have := I.xl i hi; rwa [hAt] at this, by have := I.Lk_le; rwa [hAt] at this, I.bound, ?_,
+      fun hc => by have := (I.open_ hc).1; rwa [hAt] at this, fun hc => by have := (I.closed hc).1; rwa [hAt] at this⟩
+    have := I.score
+    rw [hAt] at this
+    rw [hp, ← this]
+
 end KV.Left
